@@ -35,6 +35,8 @@ type c05Run struct {
 	nextPush int       // rotating route of the post-batch push
 	pushRng  *h.Rng
 	crashes  int
+	hangs    int
+	spawns   int
 }
 
 type c05Sent struct {
@@ -73,13 +75,40 @@ func c05FirstShape(s string) string {
 	return parts[0]
 }
 
+func c05HasViolation(r *h.Result, key string) bool {
+	for _, v := range r.Violations {
+		if v.Key == key {
+			return true
+		}
+	}
+	return false
+}
+
+// respawn: a fresh child, one well-formed push per route (first use of every path allocates its long-lived
+// goroutines), then the census baseline.
 func (c *c05Run) respawn() error {
 	p, err := c05Spawn()
 	if err != nil {
 		return err
 	}
 	c.p = p
-	return nil
+	c.spawns++
+	for route := range c05RouteNames {
+		vc := c05GenStructured(h.NewRng(uint64(route)+77), route, false)
+		o, dead := c.p.Do(vc.Req, c.deadline)
+		if o.Class != "2xx" {
+			c.r.Violate("C05/valid-push-rejected/"+c05RouteNames[route], fmt.Sprintf("a well-formed %s push is answered %s %d %s", c05RouteNames[route], o.Class, o.Status, o.Detail),
+				map[string]any{"stream": "warm-up", "route": c05RouteNames[route], "shape": vc.Shape, "request": c05Q(vc.Req), "outcome": o.Class, "panic": o.Detail})
+		}
+		if dead {
+			return fmt.Errorf("the child died during the warm-up push of %s: %s", c05RouteNames[route], o.Detail)
+		}
+	}
+	if _, err := c.p.Blocks(); err != nil {
+		return err
+	}
+	_, err = c.p.Rebase()
+	return err
 }
 
 // send one request and judge liveness. Returns the canonical outcome string ("s204", "crash", "hang", "abort").
@@ -105,6 +134,7 @@ func (c *c05Run) send(stream string, routeName, shape string, rq c05Request, mod
 			map[string]any{"stream": stream, "route": routeName, "shape": shape, "request": sent.Req, "outcome": "crash", "panic": o.Detail, "frame": o.Frame, "model": model})
 	case "hang":
 		out = "hang"
+		c.hangs++
 		c.r.Violate("C05/hang/"+routeName,
 			fmt.Sprintf("%s %s (%s, %d bytes): no response within %d ms (%s)", rq.Method, rq.Path, shape, len(rq.Body), c.deadline, o.Detail),
 			map[string]any{"stream": stream, "route": routeName, "shape": shape, "request": sent.Req, "outcome": "hang", "deadline_ms": c.deadline, "model": model})
@@ -160,6 +190,11 @@ func (c *c05Run) postBatch() error {
 	for t, n := range b.Rows {
 		c.r.CountN("rows:"+t, n)
 	}
+	if c05HasViolation(c.r, "C05/goroutine-leak") {
+		// already reported with its request; every further census would only wait for the same leak
+		c.batch = nil
+		return nil
+	}
 	cs, err := c.p.Census()
 	if err != nil {
 		return fmt.Errorf("child census: %v", err)
@@ -168,13 +203,49 @@ func (c *c05Run) postBatch() error {
 		fmt.Fprintf(os.Stderr, "post-batch: push %s, %d blocks, %d nonrect, census %d baseline %d\n", o.Class, b.Blocks, len(b.NonRect), cs.Goroutines, cs.Baseline)
 	}
 	if cs.Goroutines > cs.Baseline {
-		c.r.Violate("C05/goroutine-leak",
-			fmt.Sprintf("goroutine census %d stays above the baseline %d three seconds after a batch of %d requests", cs.Goroutines, cs.Baseline, len(c.batch)),
-			map[string]any{"stream": "post-batch", "goroutines": cs.Goroutines, "baseline": cs.Baseline, "batch": c.batch})
-		// start from a clean process so that one leak is reported once
+		// start from a clean process, then find the request of the batch that leaves goroutines behind
 		c.p.Kill()
+		if err := c.respawn(); err != nil {
+			return err
+		}
+		batch := c.batch
 		c.batch = nil
-		return c.respawn()
+		rep := map[string]any{"stream": "post-batch", "goroutines": cs.Goroutines, "baseline": cs.Baseline}
+		what := fmt.Sprintf("goroutine census %d stays above the baseline %d three seconds after a batch of %d requests", cs.Goroutines, cs.Baseline, len(batch))
+		key := "C05/goroutine-leak"
+		if !c05HasViolation(c.r, key) {
+			for _, s := range batch {
+				body, _ := base64.StdEncoding.DecodeString(s.Req.BodyB64)
+				if s.Req.BodyLen > 0 && len(body) == 0 {
+					continue
+				}
+				_, dead := c.p.Do(c05Request{s.Req.Method, s.Req.Path, s.Req.Headers, body}, c.deadline)
+				if dead {
+					if err := c.respawn(); err != nil {
+						return err
+					}
+					continue
+				}
+				one, err := c.p.Census()
+				if err != nil {
+					return fmt.Errorf("child census: %v", err)
+				}
+				if one.Goroutines > one.Baseline {
+					what = fmt.Sprintf("%s %s (%s %s) leaves %d goroutine(s) behind: census %d, baseline %d, three seconds after the response", s.Req.Method, s.Req.Path, s.Route, s.Shape, one.Goroutines-one.Baseline, one.Goroutines, one.Baseline)
+					rep["route"], rep["shape"], rep["request"], rep["stream"] = s.Route, s.Shape, s.Req, s.Stream
+					c.p.Kill()
+					if err := c.respawn(); err != nil {
+						return err
+					}
+					break
+				}
+			}
+			if _, ok := rep["request"]; !ok {
+				rep["batch"] = batch
+			}
+		}
+		c.r.Violate(key, what, rep)
+		return nil
 	}
 	c.r.Count("census-ok")
 	c.batch = nil
@@ -312,7 +383,7 @@ func (c *c05Run) genRaw(rng *h.Rng, bombs bool) (string, string, c05Request) {
 	default:
 		rq.Body = c05MutateBytes(rng, rq.Body)
 	}
-	if bombs && rng.Chance(3) {
+	if bombs && rng.Intn(1000) < 3 {
 		// decompression bombs at the limits (memory exhaustion itself is outside the claim: sizes stay moderate)
 		switch rng.Intn(3) {
 		case 0:
@@ -443,20 +514,6 @@ func c05(r *h.Result, rng *h.Rng, tier string, replay string) error {
 	if err := c.respawn(); err != nil {
 		return err
 	}
-	// warm-up: one well-formed push per route
-	for route := range c05RouteNames {
-		vc := c05GenStructured(c.pushRng, route, false)
-		o, dead := c.p.Do(vc.Req, deadline)
-		if o.Class != "2xx" {
-			r.Violate("C05/valid-push-rejected/"+c05RouteNames[route], fmt.Sprintf("a well-formed %s push is answered %s %d %s", c05RouteNames[route], o.Class, o.Status, o.Detail),
-				map[string]any{"stream": "warm-up", "route": c05RouteNames[route], "shape": vc.Shape, "request": c05Q(vc.Req), "outcome": o.Class})
-		}
-		if dead {
-			if err := c.respawn(); err != nil {
-				return err
-			}
-		}
-	}
 	if err := c.postBatch(); err != nil {
 		return err
 	}
@@ -505,8 +562,9 @@ func c05(r *h.Result, rng *h.Rng, tier string, replay string) error {
 				return err
 			}
 		}
-		if c.crashes > 25 {
-			break // every further case would only repeat known crash classes
+		if c.crashes > 25 || c.hangs > 5 {
+			r.Notes = append(r.Notes, "structured stream cut short: every further case would only repeat the crash/hang classes already reported")
+			break
 		}
 	}
 	if err := c.postBatch(); err != nil {
@@ -546,7 +604,8 @@ func c05(r *h.Result, rng *h.Rng, tier string, replay string) error {
 				return err
 			}
 		}
-		if c.crashes > 50 {
+		if c.crashes > 50 || c.hangs > 8 {
+			r.Notes = append(r.Notes, "raw stream cut short: every further case would only repeat the crash/hang classes already reported")
 			break
 		}
 	}
@@ -556,6 +615,6 @@ func c05(r *h.Result, rng *h.Rng, tier string, replay string) error {
 	if code := c.p.Quit(); code != 0 {
 		r.Violate("C05/child-exit", fmt.Sprintf("the child process exited with status %d", code), map[string]any{"exit": code})
 	}
-	r.CountN("child-spawns", c.p.Spawns)
+	r.CountN("child-spawns", c.spawns)
 	return nil
 }
